@@ -5,10 +5,13 @@ import (
 	"fmt"
 	"github.com/robfig/soy"
 	"os"
+	"reflect"
 	"runtime"
+	"sort"
 	"strconv"
 	"strings"
 	"sync"
+	"sync/atomic"
 	"testing"
 
 	"github.com/robfig/soy/data"
@@ -54,6 +57,43 @@ type c09Target struct {
 	msgs bool
 	want string
 	werr bool
+	// view: the data can be handed over as a Go struct (Tofu.Render converts it); vwant/vwerr is what
+	// that gives sequentially
+	view  bool
+	vwant string
+	vwerr bool
+}
+
+var c09ViewSeq int64
+
+// viewStruct builds a value of a struct type that no conversion has seen before (one exported field per
+// data key, plus a field whose name is unique in the process): applications hand such view structs to
+// Tofu.Render from request goroutines, and the first conversions of different types coincide.
+func viewStruct(d data.Map) (v interface{}, usable bool) {
+	var keys []string
+	for k := range d {
+		if k == "" || k[0] < 'a' || k[0] > 'z' {
+			return nil, false
+		}
+		for i := 0; i < len(k); i++ {
+			if c := k[i]; !(c >= 'a' && c <= 'z' || c >= 'A' && c <= 'Z' || c >= '0' && c <= '9' || c == '_') {
+				return nil, false
+			}
+		}
+		keys = append(keys, k)
+	}
+	sort.Strings(keys)
+	anyT := reflect.TypeOf((*interface{})(nil)).Elem()
+	fields := []reflect.StructField{}
+	for _, k := range keys {
+		fields = append(fields, reflect.StructField{Name: strings.ToUpper(k[:1]) + k[1:], Type: anyT})
+	}
+	fields = append(fields, reflect.StructField{Name: fmt.Sprintf("ZzView%d", atomic.AddInt64(&c09ViewSeq, 1)), Type: reflect.TypeOf(0)})
+	sv := reflect.New(reflect.StructOf(fields)).Elem()
+	for i, k := range keys {
+		sv.Field(i).Set(reflect.ValueOf(&[]interface{}{d[k]}[0]).Elem())
+	}
+	return sv.Interface(), true
 }
 
 // runC09 exercises one case; returns a description of the first output mismatch.
@@ -133,12 +173,22 @@ func runC09(c C09Case, rounds int, rec *recorder) error {
 		err := rd.Execute(&buf, tg.d)
 		return buf.String(), err != nil
 	}
+	renderView := func(tg *c09Target) (string, bool) {
+		v, _ := viewStruct(tg.d)
+		var buf bytes.Buffer
+		err := cb.tofu.Render(&buf, tg.fq, v)
+		return buf.String(), err != nil
+	}
 	// sequential reference
 	var targets []*c09Target
 	for fq, d := range c.Prog.AllData {
 		for _, m := range []bool{false, true} {
 			tg := &c09Target{fq: fq, d: toDataMap(d), msgs: m}
 			tg.want, tg.werr = render(tg)
+			if _, usable := viewStruct(tg.d); usable && !m && len(tg.d) > 0 {
+				tg.view = true
+				tg.vwant, tg.vwerr = renderView(tg)
+			}
 			targets = append(targets, tg)
 		}
 	}
@@ -193,11 +243,19 @@ func runC09(c C09Case, rounds int, rec *recorder) error {
 						if r%3 == 0 {
 							tg = targets[r%len(targets)]
 						}
-						got, gerr := render(tg)
-						if got != tg.want || gerr != tg.werr {
+						got, gerr := "", false
+						want, werr := tg.want, tg.werr
+						if tg.view && (gi+r)%3 != 0 {
+							// the data as a view struct of a type that is converted for the first time here
+							got, gerr = renderView(tg)
+							want, werr = tg.vwant, tg.vwerr
+						} else {
+							got, gerr = render(tg)
+						}
+						if got != want || gerr != werr {
 							mu.Lock()
 							if failure == nil {
-								failure = fmt.Errorf("goroutine %d of %d (GOMAXPROCS %d) round %d: render of %s gave %q (error=%v), alone it gives %q (error=%v)", gi, G, procs, r, tg.fq, trunc(got, 300), gerr, trunc(tg.want, 300), tg.werr)
+								failure = fmt.Errorf("goroutine %d of %d (GOMAXPROCS %d) round %d: render of %s gave %q (error=%v), alone it gives %q (error=%v)", gi, G, procs, r, tg.fq, trunc(got, 300), gerr, trunc(want, 300), werr)
 							}
 							mu.Unlock()
 							return
